@@ -14,6 +14,18 @@ def candidates(pw):
     """passwords 'built around' the real one"""
     c = [b"", pw[:1], pw[:-1], pw + b"1", pw + b" ", pw + pw, swapcase(pw), pw + b"\x00", pw + b"\r\n", b"\x00" + pw, pw.upper(), b"wrong", pw]
     c += [pw[:i] for i in range(1, len(pw))]
+    # other spellings of the same NUMBER, when the password happens to read as one (a password is compared as bytes)
+    try:
+        v = int(pw.decode("ascii").strip())
+        c += [b"%d" % v, b"+%d" % v, b"0%d" % v, b"%d.0" % v, b" %d" % v]
+    except (ValueError, UnicodeDecodeError):
+        pass
+    try:
+        v = float(pw.decode("ascii"))
+        if v == int(v):
+            c += [b"%d" % int(v)]
+    except (ValueError, UnicodeDecodeError, OverflowError):
+        pass
     seen, out = set(), []
     for x in c:
         if x not in seen:
@@ -129,7 +141,8 @@ def run_c08(tier, seed):
         if prep:
             desc = "[authenticators cleared and server restarted before the first connection] " + desc
         cases.append(dict(line=L.mkcase(steps, pw=pw, conns=len(seqs), app=[b"myapp"], default="mb(76)", tls=tls, rule=rule, prep=prep), pw=pw, hist=hist, desc=desc[:400]))
-    pws = [b"secret", b"pw", b"P\r\nw\x00d!"] if tier == "quick" else [b"secret", b"pw", b"P\r\nw\x00d!", b"a", b"correct horse battery staple"]
+    # (passwords that look like numbers are passwords all the same: "0042" is not "42")
+    pws = [b"secret", b"pw", b"P\r\nw\x00d!", b"0042"] if tier == "quick" else [b"secret", b"pw", b"P\r\nw\x00d!", b"a", b"correct horse battery staple", b"0042", b"+42", b"-0", b"007", b"1e3", b" 7"]
     for pw in pws:
         full = c08_symbols(rng, pw)
         red = c08_symbols(rng, pw, reduced=True)
@@ -580,6 +593,13 @@ def run_c07(tier, seed):
                 data = data[:rng.randrange(1, len(data))]
             add(handler, [(0, "g" + L.hx(data[:len(data) // 2])), (0, "f" + L.hx(data[len(data) // 2:]))] if len(data) > 3 else [(0, "f" + L.hx(data))],
                 "random pipeline %r" % data[:80], end=rng.choice(["e", "r", "x"]))
+    # every database number a client can select (the default 16 of a stock Redis and beyond, negative, huge), then commands of every
+    # type on it: the store is reached with whatever number the framework recorded
+    for handler in ("example", "double"):
+        for dbn in list(range(0, 20)) + [31, 32, 63, 64, 255, 256, 1023, 1024, 65535, 65536, -1, -16, 2**31 - 1, 2**31, 2**63 - 1]:
+            off = [(0, "f" + L.hx(RB("SELECT", [b"%d" % dbn]))), (0, "f" + L.hx(RB("SET", [b"k", b"v"]) + RB("GET", [b"k"]) + RB("RPUSH", [b"l", b"a"]) + RB("HSET", [b"h", b"f", b"v"]) +
+                                                                                  RB("ZADD", [b"z", b"1", b"m"]) + RB("SADD", [b"s", b"m"]) + RB("KEYS", [b"*"]) + RB("DEL", [b"k", b"l"]) + RB("SELECT", [b"0"]) + RB("GET", [b"k"])))]
+            add(handler, off, "SELECT %d then commands of every type" % dbn)
     # (c) a client that sends requests with large replies and never reads them: its own replies may wait, nobody else's may
     bigv = bytes((i * 11 + 7) % 251 for i in range(4000))
     for handler in ("example", "double"):
